@@ -433,6 +433,7 @@ def run(p, rep, tier):
     r6(p, rep)
     from . import c12
 
+    c12.r12(p, rep)  # positions of synthesised nodes must not reach the error constructors
     c12.r6(p, rep)
     from . import c07
 
